@@ -22,7 +22,7 @@ def main():
         args = [a for a in args if a != tier]
     sid = args[0]
     if sid.endswith(".diff"):
-        patch, name, metap = sid, os.path.basename(sid)[:-5], None
+        patch, name, metap = os.path.abspath(sid), os.path.basename(sid)[:-5], None
     else:
         patch, name = os.path.join(VERIF, "seeded", sid, "patch.diff"), sid
         metap = os.path.join(VERIF, "seeded", sid, "meta.json")
